@@ -296,7 +296,7 @@ fn nzp_read_tree(root: &std::path::Path) -> std::collections::BTreeMap<String, V
     m
 }
 
-//@unit props=C04 label=B tier=quick native=1 fn=patch::ZiPatch::{create,apply} bound="by execution on temporary directories: 12 pairs of trees (nesting depth 0..4) mixing unchanged, changed, added and removed files with sizes from {1, 127, 128, 129, 31999, 32000, 32001, 300000}, incl. identical trees, empty A, empty B"
+//@unit props=C04 label=B tier=quick native=1 fn=patch::ZiPatch::{create,apply} bound="by execution on temporary directories: 12 pairs of trees (nesting depth 0..4) mixing unchanged, changed, added and removed files with sizes from {1, 127, 128, 129, 31999, 32000, 32001, 300000}, incl. identical trees, empty A, empty B, and one pair whose names differ only in letter case"
 //@desc applying the patch created from (A, B) to a copy of A yields exactly B's non-empty files with B's contents (files only in B appear, files in both end with B's content, files only in A disappear); creating the patch modifies neither A nor B
 #[test]
 fn native_zipatch_create_apply() {
@@ -336,6 +336,22 @@ fn native_zipatch_create_apply() {
         assert_eq!(gk, wk, "files after apply are exactly B's files (pair {pair})");
         for (k, v) in want.iter() { assert!(got[k] == *v, "content of {k} after apply is B's content (pair {pair}, {} vs {} bytes)", got[k].len(), v.len()); }
         cases += 1;
+    }
+    // relative paths that differ only in letter case are different files (on a case-sensitive file system)
+    {
+        let (da, db, dw) = (base.join("case/A"), base.join("case/B"), base.join("case/W"));
+        let a_files = vec![("Readme.txt".to_string(), nzp_content(1, 40)), ("Movie/intro.bin".to_string(), nzp_content(2, 200)), ("common.bin".to_string(), nzp_content(3, 129))];
+        let b_files = vec![("readme.txt".to_string(), nzp_content(4, 41)), ("movie/intro.bin".to_string(), nzp_content(2, 200)), ("common.bin".to_string(), nzp_content(3, 129))];
+        nzp_write_tree(&da, &a_files); nzp_write_tree(&db, &b_files); nzp_write_tree(&dw, &a_files);
+        if nzp_read_tree(&da).len() == 3 && !da.join("readme.txt").exists() { // skipped on a case-insensitive file system
+            let patch = ZiPatch::create(da.to_str().unwrap(), db.to_str().unwrap()).expect("create");
+            let pf = base.join("case/p.patch"); std::fs::write(&pf, &patch).unwrap();
+            ZiPatch::apply(dw.to_str().unwrap(), pf.to_str().unwrap()).expect("a created patch applies");
+            let (got, want) = (nzp_read_tree(&dw), nzp_read_tree(&db));
+            assert_eq!(got.keys().collect::<Vec<_>>(), want.keys().collect::<Vec<_>>(), "files after apply are exactly B's files (names differing only in case)");
+            assert!(got == want, "contents after apply are B's (names differing only in case)");
+            cases += 1;
+        }
     }
     let _ = std::fs::remove_dir_all(&base);
     println!("NATIVE native_zipatch_create_apply cases={cases}");
@@ -409,7 +425,7 @@ fn nap_fileop(op: u8, offset: u64, size: u64, expansion: u16, path: &str, payloa
 fn nap_file_block(data: &[u8]) -> Vec<u8> { let mut b = vec![]; b.extend_from_slice(&16u32.to_le_bytes()); b.extend_from_slice(&0u32.to_le_bytes()); b.extend_from_slice(&32000i32.to_le_bytes()); b.extend_from_slice(&(data.len() as i32).to_le_bytes()); b.extend_from_slice(data); while b.len() % 128 != 0 { b.push(0); } b }
 fn nap_empty_block(blocks: u32) -> Vec<u8> { let mut v = vec![0u8; (blocks as usize) << 7]; v[0..4].copy_from_slice(&128i32.to_le_bytes()); v[12..16].copy_from_slice(&((blocks - 1) as i32).to_le_bytes()); v }
 
-//@unit props=C03 label=B tier=quick native=1 fn=patch::ZiPatch::apply bound="by execution on temporary directories: 3 hand-built patches (15, 6 and 4 chunks: FHDR-less header, T, X, I, A, D, E, H(dat version / dat data / index), F(A at offset 0 and at an offset, multi-block, D, M, R), APLY, ADIR, DELD, EOF) applied one after another to a tree with 4 pre-existing files, for the win32 and ps4 target platforms"
+//@unit props=C03 label=B tier=quick native=1 fn=patch::ZiPatch::apply bound="by execution on temporary directories: 3 hand-built patches (15, 6 and 9 chunks, the last one switching the target platform twice: FHDR-less header, T, X, I, A, D, E, H(dat version / dat data / index), F(A at offset 0 and at an offset, multi-block, D, M, R), APLY, ADIR, DELD, EOF) applied one after another to a tree with 4 pre-existing files, for the win32 and ps4 target platforms"
 //@desc after applying, the tree is what the reference semantics give: block writes at 128 x the block offset of the dat file named by category, expansion, chunk, file number and target platform, followed by the wipe; delete/expand write an empty-block header of the given block count over zeroed blocks; header updates overwrite the first (version) or second (index/data) KiB; file operations create, overwrite at an offset, truncate, delete and make directories; untouched files keep their bytes; every apply reports success; applying the patches in sequence accumulates their effects
 #[test]
 fn native_zipatch_apply_semantics() {
@@ -460,6 +476,13 @@ fn native_zipatch_apply_semantics() {
         p3.push(nap_target(platform));
         p3.push(nap_fileop(b'R', 0, 0, 2, "", &[])); model.remove("sqpack/ex2/020201.win32.index");
         p3.push(nap_add(0x0a, 0x0000, 0, 0, &d128, 0)); { let f = model.get_mut(&dat0).unwrap(); write_at(f, 0, &d128); }
+        // a second target info inside the same patch: the commands after it go to the other platform's files
+        let (other, oname) = if platform == 0 { (2u8, "ps4") } else { (0u8, "win32") };
+        p3.push(nap_target(other));
+        p3.push(nap_add(0x0a, 0x0000, 0, 1, &d128, 0)); { let f = model.entry(format!("sqpack/ffxiv/0a0000.{oname}.dat0")).or_default(); write_at(f, 128, &d128); }
+        p3.push(nap_header(b'I', b'I', 0x0a, 0x0000, 0, &h1)); { let f = model.entry(format!("sqpack/ffxiv/0a0000.{oname}.index")).or_default(); write_at(f, 1024, &h1); }
+        p3.push(nap_target(platform));
+        p3.push(nap_del_exp(b'E', 0x0a, 0x0000, 2, 1, 1)); { let f = model.entry(format!("sqpack/ffxiv/0a0000.{pname}.dat2")).or_default(); write_at(f, 128, &nap_empty_block(1)); }
                 for (k, chunks) in [p1, p2, p3].iter().enumerate() {
             let assemble = |n: usize| -> Vec<u8> { let mut v = header.clone(); for c in chunks[..n].iter() { v.extend_from_slice(c); } v.extend_from_slice(&eof); v };
             let pf = base.join(format!("p{k}.patch"));
